@@ -92,16 +92,20 @@ func defaultStyle() *style {
 
 type election[T comparable] struct {
 	votes map[T]int
+	order []T // Values in the order in which they were first voted for.
 }
 
 func newElection[T comparable]() election[T] {
-	return election[T]{make(map[T]int)}
+	return election[T]{make(map[T]int), nil}
 }
 
 // vote casts a vote for the style, but only if it’s explicit.
 func (e *election[T]) vote(style styleProp[T]) {
 	if !style.isExplicit {
 		return
+	}
+	if _, ok := e.votes[style.value]; !ok {
+		e.order = append(e.order, style.value)
 	}
 	e.votes[style.value] += 1
 }
@@ -110,7 +114,8 @@ func (e *election[T]) vote(style styleProp[T]) {
 func (e *election[T]) tallyUp(defaultValue T) T {
 	max := 0
 	result := defaultValue
-	for value, count := range e.votes {
+	for _, value := range e.order {
+		count := e.votes[value]
 		if count > max {
 			max = count
 			result = value
